@@ -20,7 +20,7 @@ ASSUMPTIONS = ["scipy.linalg.expm is accurate to ~1e-13 relative on these 2x2..5
                "Euler targets within 2.5e-3 rad of gimbal lock excluded; angle capped at 2pi-0.05 (MRP 360-degree singularity)"]
 
 N_QUICK = 12000
-N_THOROUGH = 60000
+N_THOROUGH = 200000
 
 
 def run(ctx):
